@@ -52,6 +52,14 @@ for el, dt in itertools.product((1.5, 3.0, 30.0), (float, np.int64)):
     base = np.full((200, 200), 1000, dtype=dt)
     y = lentil.detector.read_noise(base, el, seed=5) - 1000
     b.check(abs(y.mean()) < 4 * el / 200 and abs(y.std() - el) < 0.03 * el, {'electrons': el, 'dtype': str(dt), 'std': float(y.std())})
+for sig in (3e9, 1e12, 1e15):
+    # counts far beyond 32-bit integers are inside the documented range (up to ~9.2e18)
+    for method in ('poisson', 'gaussian'):
+        with b.case({'large_signal': sig, 'method': method}):
+            x = lentil.detector.shot_noise(np.full((60, 60), sig), method=method, seed=11)
+            b.check(bool(x.min() >= 0 and np.all(x == np.floor(x)) and abs(float(x.mean()) / sig - 1) < 6 / np.sqrt(sig * x.size) + 1e-12
+                         and abs(float(np.var(x.astype(float))) / sig - 1) < 0.2),
+                    {'large_signal': sig, 'method': method, 'min': float(x.min()), 'mean': float(x.mean())})
 for bad in (-1.0, 1e19):
     try:
         lentil.detector.shot_noise(np.array([[1.0, bad]]), seed=1)
@@ -72,12 +80,18 @@ for shape, s in itertools.product(((6, 8), (8, 6), (9, 9), (12, 5)), (0, 1, 2)):
             c.check(o.shape == tuple(shape) and np.all(o[~inside] == 0) and abs(np.sqrt((o[inside] ** 2).mean()) - rms) < 1e-9 * rms,
                     {'shape': shape, 'kind': kind, 'seed': s, 'rms': rms, 'got': float(np.sqrt((o[inside] ** 2).mean()))})
 
-d = Bounded('detector.cosmic_rays::shape_nonneg_finite', '40 global random states, frames 8x8, 6x11, 13x5',
+d = Bounded('detector.cosmic_rays::shape_nonneg_finite', '40 (quick: 30) global random states, frames 8x8, 6x11, 13x5, 24x8, 30x5, 5x30',
             'cosmic-ray frames have the requested shape and are non-negative and finite for every random state')
-for t, shape in itertools.product(range(40 if tier != 'quick' else 12), ((8, 8), (6, 11), (13, 5))):
+for t, shape in itertools.product(range(40 if tier != 'quick' else 30), ((8, 8), (6, 11), (13, 5), (24, 8), (30, 5), (5, 30))):
     st = np.random.get_state()
     np.random.seed(1000 + t)
-    img = lentil.detector.cosmic_rays(shape, (5e-6, 5e-6, 3e-6), 600.0)
-    np.random.set_state(st)
-    d.check(img.shape == tuple(shape) and np.all(np.isfinite(img)) and img.min() >= 0, {'state': t, 'shape': shape})
+    img = None
+    try:
+        with d.case({'state': t, 'shape': shape}):
+            # a rate that puts about six rays on the patch per second of exposure
+            img = lentil.detector.cosmic_rays(shape, (5e-6, 5e-6, 3e-6), 1.0, rate=6.5 / (shape[0] * 5e-6 * shape[1] * 5e-6))
+    finally:
+        np.random.set_state(st)
+    if img is not None:
+        d.check(img.shape == tuple(shape) and np.all(np.isfinite(img)) and img.min() >= 0, {'state': t, 'shape': shape})
 emit([a, b, c, d])
